@@ -4,12 +4,15 @@ package config
 
 import (
 	"fmt"
+	"net/http"
+	"net/http/httptest"
 	"os"
 	"path/filepath"
 	"reflect"
 	"regexp"
 	"sort"
 	"strings"
+	"sync"
 	"testing"
 
 	"github.com/honeycombio/refinery/internal/verifkit"
@@ -333,9 +336,10 @@ func c29dump(b *strings.Builder, v reflect.Value) {
 // ---- one load of the real configuration machinery --------------------------------------
 
 type c29load struct {
-	Files []string          `json:"files"`           // contents, in --config order
-	Args  []string          `json:"flags,omitempty"` // extra command-line arguments
-	Env   map[string]string `json:"env,omitempty"`   // variables set for the load ("" is set-but-empty)
+	Files []string          `json:"files"`                     // contents, in --config order
+	URL   []bool            `json:"served_from_url,omitempty"` // URL[i]: location i is an http:// URL instead of a local file
+	Args  []string          `json:"flags,omitempty"`           // extra command-line arguments
+	Env   map[string]string `json:"env,omitempty"`             // variables set for the load ("" is set-but-empty)
 }
 
 type c29result struct {
@@ -348,6 +352,34 @@ const c29rules = "RulesVersion: 2\nSamplers:\n  __default__:\n    DeterministicS
 
 var c29dirN int
 
+// one HTTP server for the URL-kind config locations of the whole test
+var (
+	c29srvOnce sync.Once
+	c29srv     *httptest.Server
+	c29srvMu   sync.Mutex
+	c29srvBody = map[string]string{}
+)
+
+func c29serve(path, content string) string {
+	c29srvOnce.Do(func() {
+		c29srv = httptest.NewServer(http.HandlerFunc(func(w http.ResponseWriter, r *http.Request) {
+			c29srvMu.Lock()
+			body, ok := c29srvBody[r.URL.Path]
+			c29srvMu.Unlock()
+			if !ok {
+				http.NotFound(w, r)
+				return
+			}
+			w.Header().Set("Content-Type", "application/yaml")
+			w.Write([]byte(body))
+		}))
+	})
+	c29srvMu.Lock()
+	c29srvBody[path] = content
+	c29srvMu.Unlock()
+	return c29srv.URL + path
+}
+
 func c29run(t *testing.T, ld c29load) c29result {
 	c29dirN++
 	dir := filepath.Join(t.TempDir(), fmt.Sprintf("l%d", c29dirN))
@@ -357,6 +389,10 @@ func c29run(t *testing.T, ld c29load) c29result {
 	defer os.RemoveAll(dir)
 	var args []string
 	for i, content := range ld.Files {
+		if i < len(ld.URL) && ld.URL[i] {
+			args = append(args, "--config", c29serve(fmt.Sprintf("/l%d/config%d.yaml", c29dirN, i), content))
+			continue
+		}
 		p := filepath.Join(dir, fmt.Sprintf("config%d.yaml", i))
 		if err := os.WriteFile(p, []byte(content), 0o644); err != nil {
 			t.Fatal(err)
@@ -455,7 +491,7 @@ var c29srcName = []string{"flag", "env", "file2", "file1"}
 func TestVerif_C29(t *testing.T) {
 	run := verifkit.Start(t, "C29", "config")
 	defer run.Finish()
-	run.Rule("reflection enumerates every leaf setting of the loaded config struct; per setting: every presence combination of {flag, env} (cmdenv-tagged settings, each CmdEnv name of the tag) x {later file, earlier file} with pairwise distinct valid values drawn from the seed, expectation = first present of flag, env, later file, earlier file, documented default; explicit zero values in files; ${VAR} placements (whole, prefix/suffix, twice, inside list and map elements, in flag and env values) with VAR set / unset / set-empty for every string-valued setting; the same references in the configuration in force after Reload (unchanged-content control, same setting with another variable, another setting changed, unset variable; validate and no-validate); values that are invalid only after expansion or only through a flag/env; every flag and environment-variable name the metadata documents; non-trivial = a load in which at least two sources competed or an expansion happened; distinct = (setting, source combination/placement)")
+	run.Rule("reflection enumerates every leaf setting of the loaded config struct; per setting: every presence combination of {flag, env} (cmdenv-tagged settings, each CmdEnv name of the tag) x {later file, earlier file} with pairwise distinct valid values drawn from the seed, expectation = first present of flag, env, later file, earlier file, documented default; explicit zero values in files; ${VAR} placements (whole, prefix/suffix, twice, inside list and map elements, in flag and env values) with VAR set / unset / set-empty for every string-valued setting; the same references in the configuration in force after Reload (unchanged-content control, same setting with another variable, another setting changed, unset variable; validate and no-validate); values that are invalid only after expansion or only through a flag/env; every flag and environment-variable name the metadata documents; config location lists mixing http:// URLs and local files in both orders (later location wins); ${VAR} at first/middle/last list positions with literal or unset-reference neighbours; non-trivial = a load in which at least two sources competed or an expansion happened; distinct = (setting, source combination/placement)")
 	run.Assume("the process environment is set per load and restored; no REFINERY_* variable leaks in from outside (cleared at start)")
 	run.Assume("configMeta.yaml (from which config.md is generated) is the documentation of names and defaults; deprecated groups/fields (lastversion set) are not documented settings")
 
@@ -505,6 +541,16 @@ func TestVerif_C29(t *testing.T) {
 		c29invalid(t, run, rng, fields[i%len(fields)])
 	})
 	c29documentedNames(t, run, fields)
+	mixOff := run.Rand("mixed-kinds-offset").Intn(3)
+	run.Cases("mixed-location-kinds", rounds*len(fields), func(i int, rng *verifkit.Rand) {
+		if !run.Thorough() && i%3 != mixOff {
+			return // quick tier: a seed-chosen third of the settings
+		}
+		c29mixedKinds(t, run, rng, fields[i%len(fields)])
+	})
+	if c29srv != nil {
+		defer c29srv.Close()
+	}
 	run.Cases("config-location", rounds*4, func(i int, rng *verifkit.Rand) { c29locations(t, run, rng, i%4) })
 }
 
@@ -754,6 +800,74 @@ func c29otherFieldKept(t *testing.T, run *verifkit.Run, rng *verifkit.Rand, fiel
 	}
 }
 
+// ---- location lists that mix URLs and local files -----------------------------------------
+
+// c29mixedKinds: 2-3 config locations, some http:// URLs and some local files, in a
+// PRNG-chosen order that always contains both kinds; every location sets the setting to
+// its own value. The later location wins, whatever its kind.
+func c29mixedKinds(t *testing.T, run *verifkit.Run, rng *verifkit.Rand, f c29field) {
+	if _, ok := c29nth(f, 1, 0); !ok || f.Dead {
+		return // single-valued or deprecated setting
+	}
+	salt := rng.Range(1, 40)
+	shapes := [][]bool{{true, false}, {false, true}, {true, false, true}, {false, true, false}, {true, true, false}, {false, false, true}, {true, false, false}, {false, true, true}}
+	// quick: the two 2-location orders plus one 3-location shape per setting
+	pick := [][]bool{shapes[0], shapes[1], shapes[2+rng.Intn(len(shapes)-2)]}
+	if run.Thorough() {
+		pick = shapes
+	}
+	for _, shape := range pick {
+		ld := c29load{URL: shape}
+		var vals []c29val
+		for i := range shape {
+			// the last location gets value 0, earlier ones other values (small domains: value 1)
+			n := len(shape) - 1 - i
+			v, ok := c29nth(f, n, salt)
+			if !ok {
+				v, _ = c29nth(f, 1, salt)
+			}
+			vals = append(vals, v)
+			ld.Files = append(ld.Files, c29fileWith(f, v.YAML, i == 0))
+		}
+		kinds := ""
+		for _, u := range shape {
+			if u {
+				kinds += "url,"
+			} else {
+				kinds += "file,"
+			}
+		}
+		kinds = strings.TrimSuffix(kinds, ",")
+		r := c29run(t, ld)
+		run.Eval(1)
+		run.Count("mixed_location_kind_loads", 1)
+		want, _ := c29decode(f, vals[len(vals)-1].YAML)
+		cs := c29case{Setting: f.Path, Load: ld, Expected: c29render(want), From: "last location (" + kinds + ")"}
+		if !r.accepted() {
+			run.Violation("C29/files/mixed-location-kinds-rejected/"+kinds,
+				fmt.Sprintf("%s given by locations [%s] with values that are each valid alone is rejected: %s", f.Path, kinds, r.why()), cs)
+			continue
+		}
+		run.Nontrivial("mixed-kinds/" + f.Path + "/" + kinds)
+		got := c29render(c29effective(r, f))
+		cs.Got = got
+		if got != cs.Expected {
+			from := "none of the locations"
+			for i, v := range vals {
+				if d, err := c29decode(f, v.YAML); err == nil && c29render(d) == got {
+					from = fmt.Sprintf("location %d of %d", i+1, len(vals))
+				}
+			}
+			lastKind := "file"
+			if shape[len(shape)-1] {
+				lastKind = "url"
+			}
+			run.Violation("C29/files/later-"+lastKind+"-location-loses-to-earlier-location-of-other-kind",
+				fmt.Sprintf("%s with config locations [%s]: effective %s (from %s), expected the last location's %s", f.Path, kinds, got, from, cs.Expected), cs)
+		}
+	}
+}
+
 // ---- explicit zero values ----------------------------------------------------------------
 
 func c29zeros(t *testing.T, run *verifkit.Run, fields []c29field) {
@@ -901,12 +1015,33 @@ func c29expansion(t *testing.T, run *verifkit.Run, rng *verifkit.Rand, f c29fiel
 		// quick tier: one PRNG-chosen template per setting, all variable states
 		holes = []c29hole{holes[rng.Intn(len(holes))]}
 	}
+	// where in a list the element with the reference sits; the other elements are literals
+	// (or, for unconstrained elements, a reference to a variable that is never set)
+	positions := []string{""}
+	if f.Type == reflect.TypeOf([]string{}) {
+		positions = []string{"first", "middle", "last"}
+		if f.elementType() != "hostport" && f.elementType() != "url" {
+			positions = append(positions, "first, last references an unset variable")
+		}
+	}
+	if !all && len(positions) > 2 {
+		// quick tier: one non-last position and one other, PRNG-chosen
+		nonLast := []string{"first", "middle"}
+		if len(positions) > 3 {
+			nonLast = append(nonLast, positions[3])
+		}
+		positions = []string{nonLast[rng.Intn(len(nonLast))], verifkit.Pick(rng, "last", "first", "middle")}
+		if positions[0] == positions[1] {
+			positions = positions[:1]
+		}
+	}
+	pos := positions[0]
 	wrap := func(s string) (yamlText string) {
 		switch {
 		case f.Type.Kind() == reflect.String:
 			return fmt.Sprintf("%q", s)
 		case f.Type == reflect.TypeOf([]string{}):
-			return fmt.Sprintf("[%q, %q]", plain, s)
+			return c29listWith(pos, plain, s)
 		default:
 			return fmt.Sprintf("{plain: \"p\", verif: %q}", s)
 		}
@@ -950,39 +1085,45 @@ func c29expansion(t *testing.T, run *verifkit.Run, rng *verifkit.Rand, f c29fiel
 	for _, h := range holes {
 		tpl := h.tpl
 		for _, st := range states {
-			for _, v := range vias {
-				text := fill(tpl, ref)
-				ld := v.mk(text, st.env(h))
-				r := c29run(t, ld)
-				run.Eval(1)
-				run.Count("expansion_loads", 1)
-				placement := strings.ReplaceAll(tpl, "%s", "${V}")
-				if elemForm != "" {
-					placement = f.Type.String() + " " + elemForm + " " + placement
-				}
-				if !r.accepted() {
-					// a constrained setting may legitimately refuse the unexpanded reference
-					// or the empty expansion; refusing the expanded valid value is not legitimate
-					if st.name == "set" {
-						run.Violation("C29/expansion/valid-after-expansion-rejected/"+f.Path+"/"+v.name,
-							fmt.Sprintf("%s = %q with %s=%q is valid after expansion (%q) but is rejected: %s", f.Path, text, varName, h.val, st.expect(h), r.why()),
-							c29exp{Setting: f.Path, Placement: placement, Variable: st.name, Load: ld, Expected: st.expect(h)})
-					} else {
-						run.Count("expansion_rejected_"+st.name, 1)
+			for _, pos = range positions {
+				for _, v := range vias {
+					text := fill(tpl, ref)
+					ld := v.mk(text, st.env(h))
+					r := c29run(t, ld)
+					run.Eval(1)
+					run.Count("expansion_loads", 1)
+					placement := strings.ReplaceAll(tpl, "%s", "${V}")
+					if elemForm != "" {
+						placement = f.Type.String() + " " + elemForm + " " + placement
 					}
-					continue
-				}
-				wantText := st.expect(h)
-				want, err := c29decode(f, wrap(wantText))
-				if err != nil {
-					t.Fatalf("c29: decode %q: %v", wrap(wantText), err)
-				}
-				got := c29render(c29effective(r, f))
-				run.Nontrivial("expansion/" + f.Path + "/" + v.name + "/" + placement + "/" + st.name)
-				if got != c29render(want) {
-					run.Violation("C29/expansion/"+st.sig,
-						fmt.Sprintf("%s = %q (via %s) with %s %s: effective %s, expected %s", f.Path, text, v.name, varName, st.name, got, c29render(want)),
-						c29exp{Setting: f.Path, Placement: placement, Variable: st.name, Load: ld, Expected: c29render(want), Got: got})
+					if pos != "" {
+						placement += " at list position: " + pos
+						run.Count("expansion_list_position_loads", 1)
+					}
+					if !r.accepted() {
+						// a constrained setting may legitimately refuse the unexpanded reference
+						// or the empty expansion; refusing the expanded valid value is not legitimate
+						if st.name == "set" {
+							run.Violation("C29/expansion/valid-after-expansion-rejected/"+f.Path+"/"+v.name,
+								fmt.Sprintf("%s = %q with %s=%q is valid after expansion (%q) but is rejected: %s", f.Path, text, varName, h.val, st.expect(h), r.why()),
+								c29exp{Setting: f.Path, Placement: placement, Variable: st.name, Load: ld, Expected: st.expect(h)})
+						} else {
+							run.Count("expansion_rejected_"+st.name, 1)
+						}
+						continue
+					}
+					wantText := st.expect(h)
+					want, err := c29decode(f, wrap(wantText))
+					if err != nil {
+						t.Fatalf("c29: decode %q: %v", wrap(wantText), err)
+					}
+					got := c29render(c29effective(r, f))
+					run.Nontrivial("expansion/" + f.Path + "/" + v.name + "/" + placement + "/" + st.name)
+					if got != c29render(want) {
+						run.Violation("C29/expansion/"+st.sig,
+							fmt.Sprintf("%s = %q (via %s) with %s %s: effective %s, expected %s", f.Path, text, v.name, varName, st.name, got, c29render(want)),
+							c29exp{Setting: f.Path, Placement: placement, Variable: st.name, Load: ld, Expected: c29render(want), Got: got})
+					}
 				}
 			}
 		}
@@ -999,6 +1140,22 @@ func c29expansion(t *testing.T, run *verifkit.Run, rng *verifkit.Rand, f c29fiel
 					fmt.Sprintf("%s = %q became %q", f.Path, text, got), ld)
 			}
 		}
+	}
+}
+
+// c29listWith renders a YAML list that holds s at the given position among literal
+// elements derived from plain (valid for the list's element type).
+func c29listWith(pos, plain, s string) string {
+	plain2 := strings.Replace(strings.Replace(plain, "plain", "plain2", 1), "127.0.0.9:9", "127.0.0.8:8", 1)
+	switch pos {
+	case "first":
+		return fmt.Sprintf("[%q, %q]", s, plain)
+	case "middle":
+		return fmt.Sprintf("[%q, %q, %q]", plain, s, plain2)
+	case "first, last references an unset variable":
+		return fmt.Sprintf("[%q, %q, %q]", s, plain, "keep-${VERIF_C29_NEVER_SET}-literal")
+	default: // last
+		return fmt.Sprintf("[%q, %q]", plain, s)
 	}
 }
 
@@ -1054,12 +1211,13 @@ func c29expansionReload(t *testing.T, run *verifkit.Run, rng *verifkit.Rand, f c
 	h1s, h2s := c29holes(form, choices, k1), c29holes(form, choices, k2)
 	hi := rng.Intn(len(h1s))
 	h1, h2 := h1s[hi], h2s[hi]
+	listPos := verifkit.Pick(rng, "first", "middle", "last")
 	wrap := func(s string) string {
 		switch {
 		case f.Type.Kind() == reflect.String:
 			return fmt.Sprintf("%q", s)
 		case f.Type == reflect.TypeOf([]string{}):
-			return fmt.Sprintf("[%q, %q]", plain, s)
+			return c29listWith(listPos, plain, s)
 		default:
 			return fmt.Sprintf("{plain: \"p\", verif: %q}", s)
 		}
